@@ -73,6 +73,7 @@ func (s *State) clone() *State {
 // ---------- generator ----------
 
 type Gen struct {
+	noHeap    int // >0 while evaluating a precondition that must not depend on the heap (funpre)
 	P         *Program
 	fn        *ssa.Function
 	spec      *FuncSpec
@@ -264,6 +265,9 @@ func fnKey(fn *ssa.Function) string {
 // ---------- heap access ----------
 
 func (g *Gen) heapSym(h *Heap, name string) string {
+	if g.noHeap > 0 {
+		unsup("a precondition used through funpre() reads the heap (%s)", name)
+	}
 	if s, ok := h.m[name]; ok {
 		return s
 	}
